@@ -82,7 +82,7 @@ Verdict judge_c11(const Plan &plan, const sim::Shm *shm, const ChildExit &, cons
         add((int)p + 1, plan.producers[p]);
 
     long fatal_invoke = -1;
-    int fatal_cid = -1;
+    int fatal_cid = -1, fatal_calls = 0;
     for (uint32_t i = 0; i < N; i++) {
         const sim::Event &e = shm->events[i];
         if (e.kind == E_INVOKE) {
@@ -96,6 +96,22 @@ Verdict judge_c11(const Plan &plan, const sim::Shm *shm, const ChildExit &, cons
         } else if (e.kind == E_FATAL_INVOKE) {
             fatal_invoke = i;
             fatal_cid = (int)e.a;
+            fatal_calls++;
+        }
+    }
+    if (fatal_calls > 1) {
+        // several fatal messages (different threads): the one that terminates the process is the one
+        // whose thread called abort(); the others are ordinary unfinished calls
+        int abort_tid = -1;
+        for (uint32_t i = 0; i < N; i++)
+            if (shm->events[i].kind == sim::EV_ABORT)
+                abort_tid = shm->events[i].tid;
+        for (uint32_t i = 0; i < N; i++) {
+            const sim::Event &e = shm->events[i];
+            if (e.kind == E_FATAL_INVOKE && e.tid == abort_tid) {
+                fatal_invoke = i;
+                fatal_cid = (int)e.a;
+            }
         }
     }
     {
@@ -274,6 +290,7 @@ Verdict judge_c11(const Plan &plan, const sim::Shm *shm, const ChildExit &, cons
     v.probes["records_above_16k"] = big;
     v.probes["files"] = total_files;
     v.probes["died_by_abort"] = died ? 1 : 0;
+    v.probes["several_fatal_calls"] = fatal_calls > 1 ? 1 : 0;
     v.probes["fatal_from_nonmain"] = (fatal_cid >= 0 && (fatal_cid >> 16) != 0) ? 1 : 0;
     return v;
 }
